@@ -258,7 +258,19 @@ func runC05(r *core.Run) {
 			r.Inconclusive("copy: " + err.Error())
 			return
 		}
-		env, err := menv.New(t.world.Clone(int64(ji)), "m0", dir, menv.Opts{MPP: j.mpp})
+		// a quarter of the scripts each run with gonuts' own CLN and LND adapter between the mint and the
+		// model (fake CLN REST node, fake lnd gRPC server): their status and error mapping is then part of
+		// what the decision table judges
+		backend := ""
+		switch {
+		case os.Getenv("VERIF_C05_BACKEND") != "":
+			backend = os.Getenv("VERIF_C05_BACKEND")
+		case ji%4 == 2:
+			backend = "cln"
+		case ji%4 == 3:
+			backend = "lnd"
+		}
+		env, err := menv.New(t.world.Clone(int64(ji)), "m0", dir, menv.Opts{MPP: j.mpp, Backend: backend})
 		if err != nil {
 			r.Inconclusive("load: " + err.Error())
 			return
@@ -438,6 +450,9 @@ func runC05(r *core.Run) {
 		}
 		r.Eval(script, env.Node.StatusLookups(t.hash) > 0 || pay == "success" || pay == "pending")
 		r.Count("lookups_consumed", int64(env.Node.StatusLookups(t.hash)))
+		if backend != "" {
+			r.Count("scripts_through_the_"+strings.ToUpper(backend)+"_adapter", 1)
+		}
 		r.Sample("pay="+pay+fmt.Sprintf("/polls=%d", len(j.chans)), map[string]any{"script": script, "observations": obs})
 	})
 }
